@@ -22,7 +22,10 @@ def lemmas():
     raises_case = xr_lt(ub, lb)                                         # requires of case `lb_gt_ub`
     out = [Obl("C11/lemma/bounds-pair-protocol-never-raises-for-valid-pairs", dom, z3.And(valid_case, z3.Not(raises_case)), "lemma")]
     # round trip per object kind: writer post-condition o reader post-condition (contracts/c11_reader.py)
-    return out + R.lemmas() + M2.lemmas()
+    # the DictLists of a pickled model: what DictList.__reduce__ hands to pickle comes back as a well-formed list with the same
+    # identifiers in the same order (contracts/c15_query.py, from the post-conditions of the proved C15 contracts)
+    from contracts import c15_query as Q15
+    return out + R.lemmas() + M2.lemmas() + Q15.lemmas(prefix="C11")
 
 
 _READER_KEYS = ("_reaction_from_dict", "_metabolite_from_dict", "gene_from_dict")
@@ -204,6 +207,11 @@ def run(rep):
         "writer's records consist of str, finite float, int, bool, lists and dictionaries with str keys (values of user notes / "
         "annotations are not constrained) - the kinds for which loads(dumps(x)) == x is assumed. The pickle protocol methods "
         "(__getstate__ / __setstate__ of Model, Object, Species, Reaction) are proved under C12 (contracts/c12_pickle.py). "
+        "Pickle, the DictList part (contracts/c15_query.py; DictList.__reduce__ / __getstate__ proved under C15): lemmas "
+        "dictlist-pickle-round-trip from the post-conditions of the proved DictList.__init__ / extend / append / __setstate__ - "
+        "unpickling element copies that keep their identifiers gives a well-formed DictList with the same identifiers in the same "
+        "order and the same index, and no step raises (assumed: pickle's reduce protocol for list items; an unpickled Object keeps "
+        "its id). "
         "The codecs (json, ruamel.yaml, pickle), the dict assembly loops over heterogeneous values and the gene-rule "
         "text are outside the verifier's reach: bounded driver (snapshot equality incl. the solver problem, optimum and idempotence for "
         "every format/variant on generated models, non-default Configuration bounds)."),
